@@ -267,3 +267,252 @@ Theorem C01_ctl_nested_if_while : forall cfg a b n m pa pb st,
     mget (mem st') pa = Z.max (mget (mem st) pa) (mget (mem st) pb) /\
     only_changes [pa] st st' /\ keeps_xys st st'.
 Proof. exact nested_if_while_correct. Qed.
+
+(** * do-while, for, switch (Model/GenCtl.v; the [clisting_NN] examples there are compared with the
+    real compiler; proofs in Proofs/GenCtlFacts.v).  The labels: no label is defined twice in the
+    emitted statement ([NoDup (defs ...)]); the bodies: a specification, no RTS / RTI. *)
+From CC Require Import Model.GenCtl Proofs.GenCtlFacts.
+
+(** [do B while (c)]: the do-while rule *)
+Theorem C01_ctl_dowhile : forall cfg c B lhead lend here
+    (I Q : mstate -> Prop) (mu : mstate -> Z) st,
+  ports cfg = [] -> cond_wf cfg c ->
+  lhead <> ""%string -> here <> ""%string -> lhead <> here ->
+  NoDup (defs (dowhile_tpl_at c B lhead lend here)) -> no_ret B ->
+  (forall s s', same_mxys s s' -> I s -> I s') ->
+  (forall s s', same_mxys s s' -> Q s -> Q s') ->
+  (forall s s', same_mxys s s' -> mu s' = mu s) ->
+  (forall s, bytes_ok s -> I s ->
+     exists s', halts_to cfg B s s' /\ Q s' /\
+       (cond_holds cfg c s' = true -> I s' /\ 0 <= mu s' < mu s)) ->
+  bytes_ok st -> I st ->
+  exists st', halts_to cfg (dowhile_tpl_at c B lhead lend here) st st' /\
+    Q st' /\ cond_holds cfg c st' = false /\ bytes_ok st'.
+Proof. exact dowhile_tpl_correct. Qed.
+
+(** [for (Init; c; U) B], bodies without [break] / [continue] *)
+Theorem C01_ctl_for : forall cfg Init c U B lfor lupd lend here
+    (I : mstate -> Prop) (mu : mstate -> Z) st,
+  ports cfg = [] -> cond_wf cfg c ->
+  lfor <> ""%string -> lend <> ""%string -> here <> ""%string -> lfor <> here -> lend <> here ->
+  NoDup (defs (for_tpl_at Init c U B lfor lupd lend here)) ->
+  no_ret Init -> no_ret B -> no_ret U ->
+  (exists slB, slines_of B = Some slB) -> (exists slU, slines_of U = Some slU) ->
+  (forall s s', same_mxys s s' -> I s -> I s') ->
+  (forall s s', same_mxys s s' -> mu s' = mu s) ->
+  (exists s0, halts_to cfg Init st s0 /\ I s0) ->
+  (forall s, bytes_ok s -> I s -> cond_holds cfg c s = true ->
+     0 <= mu s /\
+     exists s1, halts_to cfg B s s1 /\ exists s2, halts_to cfg U s1 s2 /\ I s2 /\ mu s2 < mu s) ->
+  bytes_ok st ->
+  exists st', halts_to cfg (for_tpl_at Init c U B lfor lupd lend here) st st' /\
+    I st' /\ cond_holds cfg c st' = false /\ bytes_ok st'.
+Proof. exact for_tpl_correct. Qed.
+
+(** bodies that may [break] / [continue]: [body_exits]; a body that simply halts is one *)
+Theorem C01_ctl_body_exits_halts : forall cfg B lbrk lcont s s' (Nm : mstate -> Prop),
+  halts_to cfg B s s' -> no_ret B -> Nm s' ->
+  body_exits cfg B lbrk lcont s Nm (fun _ => False) (fun _ => False).
+Proof. exact halts_body_exits. Qed.
+
+(** [if (c) break; B'] *)
+Theorem C01_ctl_break_if : forall cfg c B' lbrk lcont here s (Nm Bk : mstate -> Prop),
+  ports cfg = [] -> cond_wf cfg c ->
+  lbrk <> ""%string -> here <> ""%string -> lbrk <> here ->
+  no_ret B' -> (exists sl, slines_of B' = Some sl) -> bytes_ok s ->
+  (cond_holds cfg c s = true -> Bk (cond_state cfg c s)) ->
+  (cond_holds cfg c s = false -> exists s', halts_to cfg B' (cond_state cfg c s) s' /\ Nm s') ->
+  body_exits cfg (break_if_at c lbrk here ++ B') lbrk lcont s Nm Bk (fun _ => False).
+Proof. exact break_if_exits. Qed.
+
+(** the for rule for a body that may [break] / [continue] *)
+Theorem C01_ctl_for_break : forall cfg Init c U B lfor lupd lend here
+    (I Bk : mstate -> Prop) (J : mstate -> mstate -> Prop) (mu : mstate -> Z) st,
+  ports cfg = [] -> cond_wf cfg c ->
+  lfor <> ""%string -> lend <> ""%string -> here <> ""%string -> lfor <> here -> lend <> here ->
+  NoDup (defs (for_tpl_at Init c U B lfor lupd lend here)) ->
+  no_ret Init -> no_ret U ->
+  (exists slB, slines_of B = Some slB) -> (exists slU, slines_of U = Some slU) ->
+  (forall s s', same_mxys s s' -> I s -> I s') ->
+  (forall s s', same_mxys s s' -> mu s' = mu s) ->
+  (exists s0, halts_to cfg Init st s0 /\ I s0) ->
+  (forall s, bytes_ok s -> I s -> cond_holds cfg c s = true ->
+     0 <= mu s /\
+     body_exits cfg B lend lupd s (fun s1 => bytes_ok s1 /\ J s s1)
+       (fun s1 => bytes_ok s1 /\ Bk s1) (fun s1 => bytes_ok s1 /\ J s s1)) ->
+  (forall s s1, bytes_ok s1 -> J s s1 -> exists s2, halts_to cfg U s1 s2 /\ I s2 /\ mu s2 < mu s) ->
+  bytes_ok st ->
+  exists st', halts_to cfg (for_tpl_at Init c U B lfor lupd lend here) st st' /\
+    bytes_ok st' /\ ((I st' /\ cond_holds cfg c st' = false) \/ Bk st').
+Proof. exact for_tpl_break_correct. Qed.
+
+(** switch, ANY list of cases: the code runs exactly the bodies [switch_sem] computes *)
+Theorem C01_ctl_switch : forall cfg e cs d L st,
+  ports cfg = [] -> sw_wf cfg e -> labels_ne L ->
+  NoDup (defs (switch_tpl_at e cs d L)) ->
+  (forall cse, In cse cs -> forall v, In v (sc_vals cse) -> 0 <= v < 256) ->
+  (forall B, In B (sw_bodies cs d) -> body_total cfg B) ->
+  bytes_ok st ->
+  exists mid st', same_mxys st mid /\ bytes_ok mid /\
+    halts_to cfg (switch_tpl_at e cs d L) st st' /\
+    exec_bodies cfg (switch_sem (sw_val cfg e st) cs d) mid st' /\ bytes_ok st'.
+Proof. exact switch_tpl_correct. Qed.
+
+(** with the compiler's labels *)
+Theorem C01_ctl_switch_n : forall cfg e cs d n st,
+  ports cfg = [] -> sw_wf cfg e ->
+  NoDup (defs (switch_tpl e cs d n)) ->
+  (forall cse, In cse cs -> forall v, In v (sc_vals cse) -> 0 <= v < 256) ->
+  (forall B, In B (sw_bodies cs d) -> body_total cfg B) ->
+  bytes_ok st ->
+  exists mid st', same_mxys st mid /\ bytes_ok mid /\
+    halts_to cfg (switch_tpl e cs d n) st st' /\
+    exec_bodies cfg (switch_sem (sw_val cfg e st) cs d) mid st' /\ bytes_ok st'.
+Proof. exact switch_tpl_correct_n. Qed.
+
+(** switches whose statements are [dst = k;]: the last assignment executed *)
+Theorem C01_ctl_switch_assign : forall cfg e (ks : list (sw_case Z)) (dk : option Z) dst pd L st,
+  ports cfg = [] -> sw_wf cfg e -> labels_ne L ->
+  var_name dst -> layout cfg dst = Some pd -> 0 <= pd < 65536 ->
+  NoDup (defs (switch_tpl_at e (map (map_case (assign8 dst)) ks) (option_map (assign8 dst) dk) L)) ->
+  (forall c, In c ks -> (forall v, In v (sc_vals c) -> 0 <= v < 256) /\ 0 <= sc_body c < 256) ->
+  (forall k, dk = Some k -> 0 <= k < 256) ->
+  bytes_ok st ->
+  exists st',
+    halts_to cfg (switch_tpl_at e (map (map_case (assign8 dst)) ks) (option_map (assign8 dst) dk) L)
+      st st' /\
+    mget (mem st') pd = last (switch_sem (sw_val cfg e st) ks dk) (mget (mem st) pd) /\
+    only_changes [pd] st st' /\ keeps_xys st st'.
+Proof. exact switch_assign_correct. Qed.
+
+(** listing 07: switch (a) { case 1: c = 1; break; case 2: c = 2; break; default: c = 3; } *)
+Theorem C01_ctl_switch_listing_07 : forall cfg x dst px pd st,
+  ports cfg = [] -> var_name x -> var_name dst ->
+  layout cfg x = Some px -> layout cfg dst = Some pd -> 0 <= px < 65536 -> 0 <= pd < 65536 ->
+  bytes_ok st ->
+  exists st',
+    halts_to cfg (switch_tpl (SwMem x) [mkCase [1] (assign8 dst 1) false;
+                                        mkCase [2] (assign8 dst 2) false]
+                    (Some (assign8 dst 3)) 1) st st' /\
+    mget (mem st') pd
+    = (if mget (mem st) px =? 1 then 1 else if mget (mem st) px =? 2 then 2 else 3) /\
+    only_changes [pd] st st' /\ keeps_xys st st'.
+Proof. exact switch_listing_07. Qed.
+
+(** listing 08: switch (a) { case 1: c = 1; case 2: c = 2; break; } *)
+Theorem C01_ctl_switch_listing_08 : forall cfg x dst px pd st,
+  ports cfg = [] -> var_name x -> var_name dst ->
+  layout cfg x = Some px -> layout cfg dst = Some pd -> 0 <= px < 65536 -> 0 <= pd < 65536 ->
+  bytes_ok st ->
+  exists st',
+    halts_to cfg (switch_tpl (SwMem x) [mkCase [1] (assign8 dst 1) true;
+                                        mkCase [2] (assign8 dst 2) false] None 1) st st' /\
+    mget (mem st') pd
+    = (if (mget (mem st) px =? 1) || (mget (mem st) px =? 2) then 2 else mget (mem st) pd) /\
+    only_changes [pd] st st' /\ keeps_xys st st'.
+Proof. exact switch_listing_08. Qed.
+
+(** listing 09: switch (a) { case 1: case 3: c = 1; break; default: c = 2; } *)
+Theorem C01_ctl_switch_listing_09 : forall cfg x dst px pd st,
+  ports cfg = [] -> var_name x -> var_name dst ->
+  layout cfg x = Some px -> layout cfg dst = Some pd -> 0 <= px < 65536 -> 0 <= pd < 65536 ->
+  bytes_ok st ->
+  exists st',
+    halts_to cfg (switch_tpl (SwMem x) [mkCase [1; 3] (assign8 dst 1) false]
+                    (Some (assign8 dst 2)) 1) st st' /\
+    mget (mem st') pd
+    = (if (mget (mem st) px =? 1) || (mget (mem st) px =? 3) then 1 else 2) /\
+    only_changes [pd] st st' /\ keeps_xys st st'.
+Proof. exact switch_listing_09. Qed.
+
+(** listing 10: switch (X) { case 0: c = 1; break; case 5: c = 2; break; } *)
+Theorem C01_ctl_switch_listing_10 : forall cfg dst pd st,
+  ports cfg = [] -> var_name dst -> layout cfg dst = Some pd -> 0 <= pd < 65536 ->
+  bytes_ok st ->
+  exists st',
+    halts_to cfg (switch_tpl SwX [mkCase [0] (assign8 dst 1) false;
+                                  mkCase [5] (assign8 dst 2) false] None 1) st st' /\
+    mget (mem st') pd
+    = (if rX st =? 0 then 1 else if rX st =? 5 then 2 else mget (mem st) pd) /\
+    only_changes [pd] st st' /\ keeps_xys st st'.
+Proof. exact switch_listing_10. Qed.
+
+(** listing 01: do { c = 1; } while (a < b); (ends iff a >= b at the start) *)
+Theorem C01_ctl_dowhile_lt_assign : forall cfg a b c n pa pb pc st,
+  ports cfg = [] -> var_name a -> var_name b -> var_name c ->
+  layout cfg a = Some pa -> layout cfg b = Some pb -> layout cfg c = Some pc ->
+  0 <= pa < 65536 -> 0 <= pb < 65536 -> 0 <= pc < 65536 -> pc <> pa -> pc <> pb ->
+  bytes_ok st -> mget (mem st) pb <= mget (mem st) pa ->
+  exists st', halts_to cfg (dowhile_tpl (CVar RLt a b) (assign8 c 1) n) st st' /\
+    mget (mem st') pc = 1 /\ only_changes [pc] st st' /\ keeps_xys st st'.
+Proof. exact dowhile_lt_assign_correct. Qed.
+
+(** listing 02: do { a++; } while (a != b); *)
+Theorem C01_ctl_dowhile_ne_inc : forall cfg a b n pa pb st,
+  ports cfg = [] -> var_name a -> var_name b ->
+  layout cfg a = Some pa -> layout cfg b = Some pb ->
+  0 <= pa < 65536 -> 0 <= pb < 65536 -> pa <> pb ->
+  bytes_ok st ->
+  exists st', halts_to cfg (dowhile_tpl (CVar RNeq a b) (template (SInc8 a)) n) st st' /\
+    mget (mem st') pa = mget (mem st) pb /\
+    only_changes [pa] st st' /\ keeps_xys st st'.
+Proof. exact dowhile_ne_inc_correct. Qed.
+
+(** listing 03: do { a++; } while (a <= b); (for b < 255) *)
+Theorem C01_ctl_dowhile_le_inc : forall cfg a b n pa pb st,
+  ports cfg = [] -> var_name a -> var_name b ->
+  layout cfg a = Some pa -> layout cfg b = Some pb ->
+  0 <= pa < 65536 -> 0 <= pb < 65536 -> pa <> pb ->
+  bytes_ok st -> mget (mem st) pb < 255 ->
+  exists st', halts_to cfg (dowhile_tpl (CVar RLte a b) (template (SInc8 a)) n) st st' /\
+    mget (mem st') pa
+    = (if (mget (mem st) pa + 1) mod 256 <=? mget (mem st) pb
+       then mget (mem st) pb + 1 else (mget (mem st) pa + 1) mod 256) /\
+    only_changes [pa] st st' /\ keeps_xys st st'.
+Proof. exact dowhile_le_inc_correct. Qed.
+
+(** listing 04: for (i = 0; i != b; i++) c = 1; *)
+Theorem C01_ctl_for_ne_assign : forall cfg i b c n pi pb pc st,
+  ports cfg = [] -> var_name i -> var_name b -> var_name c ->
+  layout cfg i = Some pi -> layout cfg b = Some pb -> layout cfg c = Some pc ->
+  0 <= pi < 65536 -> 0 <= pb < 65536 -> 0 <= pc < 65536 ->
+  pi <> pb -> pc <> pi -> pc <> pb ->
+  bytes_ok st ->
+  exists st',
+    halts_to cfg (for_tpl (assign8 i 0) (CVar RNeq i b) (template (SInc8 i)) (assign8 c 1) n) st st' /\
+    mget (mem st') pi = mget (mem st) pb /\
+    mget (mem st') pc = (if mget (mem st) pb =? 0 then mget (mem st) pc else 1) /\
+    only_changes [pi; pc] st st' /\ keeps_xys st st'.
+Proof. exact for_ne_assign_correct. Qed.
+
+(** listing 05: for (i = a; i < b; i++) c = 1; *)
+Theorem C01_ctl_for_lt_assign : forall cfg i a b c n pi pa pb pc st,
+  ports cfg = [] -> var_name i -> var_name a -> var_name b -> var_name c ->
+  layout cfg i = Some pi -> layout cfg a = Some pa -> layout cfg b = Some pb ->
+  layout cfg c = Some pc ->
+  0 <= pi < 65536 -> 0 <= pa < 65536 -> 0 <= pb < 65536 -> 0 <= pc < 65536 ->
+  pi <> pb -> pc <> pi -> pc <> pb ->
+  bytes_ok st ->
+  exists st',
+    halts_to cfg (for_tpl (template (SCopy8 i a)) (CVar RLt i b) (template (SInc8 i)) (assign8 c 1) n)
+      st st' /\
+    mget (mem st') pi = Z.max (mget (mem st) pa) (mget (mem st) pb) /\
+    mget (mem st') pc = (if mget (mem st) pa <? mget (mem st) pb then 1 else mget (mem st) pc) /\
+    only_changes [pi; pc] st st' /\ keeps_xys st st'.
+Proof. exact for_lt_assign_correct. Qed.
+
+(** listing 06: for (i = 0; i != 4; i++) { if (a == b) break; c = 1; } *)
+Theorem C01_ctl_for_break_listing : forall cfg i a b c n pi pa pb pc st,
+  ports cfg = [] -> var_name i -> var_name a -> var_name b -> var_name c ->
+  layout cfg i = Some pi -> layout cfg a = Some pa -> layout cfg b = Some pb ->
+  layout cfg c = Some pc ->
+  0 <= pi < 65536 -> 0 <= pa < 65536 -> 0 <= pb < 65536 -> 0 <= pc < 65536 ->
+  pi <> pa -> pi <> pb -> pc <> pa -> pc <> pb -> pc <> pi ->
+  bytes_ok st ->
+  exists st',
+    halts_to cfg (for_tpl (assign8 i 0) (CConst RNeq i 4) (template (SInc8 i))
+                    (break_if (CVar REq a b) n ++ assign8 c 1) n) st st' /\
+    mget (mem st') pi = (if mget (mem st) pa =? mget (mem st) pb then 0 else 4) /\
+    mget (mem st') pc = (if mget (mem st) pa =? mget (mem st) pb then mget (mem st) pc else 1) /\
+    only_changes [pi; pc] st st' /\ keeps_xys st st'.
+Proof. exact for_break_correct. Qed.
